@@ -173,6 +173,10 @@ def run(ctx, model_ok):
     longs = [("\n" * n + "print(1)\n", "0"), (";" * n + "print(1)\n", "0"), ("# c\n" * n + "print(1)\n", "0"),
              ("x := [\n" + "\n" * n + "1]\nprint(x[0])\n", "0"), ("\n" * n + "x := )\n", "103"), ("# é\n" * n + "1 +\n", "103"),
              ("print(1)" + ";\n" * n + "print(1)\n", "0")]
+    for neg in ("x := -9223372036854775808\n", "print(1 -9223372036854775808)\n", "x := [-9223372036854775808]\n", "print(-9223372036854775809)\n",
+                "x := - 9223372036854775808\n", "print(0--9223372036854775808)\n"):
+        longs.append((neg, "103"))
+    longs.append(("x := -9223372036854775807\nprint(1)\n", "0"))
     for k in range(34, 46):
         longs.append((f'x := 1 "{"a" * k}é{"b" * 10}"\n', "103"))
         longs.append((f'x := [1 "{"€" * (k // 3)}{"a" * (k % 3)}😀 tail"]\n', "103"))
